@@ -29,6 +29,7 @@ const (
 	expNone          // no reply (noreply)
 	expClose         // connection is closed by the server, no reply
 	expErrorOrClose
+	expErrorMayClose // error reply; afterwards the server either closes or has swallowed the announced body
 )
 
 type expect struct {
@@ -156,7 +157,14 @@ func (rc *refConn) feed(stream []byte, served func(key string) bool) {
 				continue
 			}
 			if uint32(length) > uint32(rc.cfg.BodyMax) {
-				add(expect{Kind: expError, Desc: desc})
+				if length > 0 && length < 1<<20 && pos+length+2 <= len(stream) && bytes.Equal(stream[pos+length:pos+length+2], []byte("\r\n")) {
+					// a refused value whose body follows: the body is data, not commands. The server
+					// must either swallow it or close the connection after the error reply.
+					pos += length + 2
+					add(expect{Kind: expErrorMayClose, Desc: desc + " (oversize, body follows)"})
+					continue
+				}
+				add(expect{Kind: expErrorMayClose, Desc: desc + " (oversize)"})
 				continue
 			}
 			noreply := false
@@ -467,7 +475,7 @@ func genProtoStream(r *Rng, cfg *SimCfg, ci int, prop string) []byte {
 	}
 	malformed := func() bool { // returns true if the stream must end here
 		k := protoKey(r, ci, pool)
-		switch r.Intn(14) {
+		switch r.Intn(16) {
 		case 0:
 			b.WriteString("\r\n")
 		case 1:
@@ -499,6 +507,18 @@ func genProtoStream(r *Rng, cfg *SimCfg, ci int, prop string) []byte {
 			return true
 		case 13:
 			b.WriteString(strings.Repeat("x", r.Pick(100, 5000, 70000)) + "\r\n")
+		case 14, 15:
+			// a value just above body_max, complete with its body; the body looks like commands
+			n := max + r.Range(1, 300)
+			body := make([]byte, 0, n)
+			inj := fmt.Sprintf("delete %s\r\nset %s 0 0 1\r\nX\r\n", protoKey(r, ci, pool), protoKey(r, ci, pool))
+			for len(body) < n {
+				body = append(body, inj...)
+			}
+			body = body[:n]
+			b.WriteString(fmt.Sprintf("set %s 0 0 %d\r\n", k, n))
+			b.Write(body)
+			b.WriteString("\r\n")
 		}
 		return false
 	}
@@ -923,6 +943,15 @@ func (x *protoExec) compare(ci int, rc *refConn, got []Reply, closedByServer boo
 			return
 		}
 		switch e.Kind {
+		case expErrorMayClose:
+			if !isErrorReply(r) {
+				x.fail("R-proto-order", "expected-error", fmt.Sprintf("%s: expected an error reply, got %s", where(e), r))
+				return
+			}
+			if gi == len(got) && closedByServer {
+				return // orderly close after refusing the value
+			}
+			x.out.probe("oversize-body-swallowed")
 		case expError, expErrorOrClose:
 			if !isErrorReply(r) {
 				x.fail("R-proto-order", "expected-error", fmt.Sprintf("%s: expected an error reply, got %s", where(e), r))
